@@ -89,6 +89,13 @@ class SymInt:
         if isinstance(o, int) and o >= 0 and (o & (o + 1)) == 0: return SymInt(self.t % (o + 1))
         raise Unsupported("bitwise & on symbolic int")
     __rand__ = __and__
+    def __rshift__(self, k):
+        # x >> k for a concrete k >= 0 is floor(x / 2**k) for every Python int; z3's integer division by a positive constant is that floor
+        if isinstance(k, int) and not isinstance(k, bool) and k >= 0: return SymInt(self.t / (1 << k))
+        raise Unsupported("shift of a symbolic int by a symbolic amount")
+    def __lshift__(self, k):
+        if isinstance(k, int) and not isinstance(k, bool) and k >= 0: return SymInt(self.t * (1 << k))
+        raise Unsupported("shift of a symbolic int by a symbolic amount")
 
 # ---- symbolic sequences of records -------------------------------------------------------------------
 class SymRecordSeq:
